@@ -88,7 +88,7 @@ static void step(World& w, const Op& op, std::string& oc, std::string& ot, bool&
     case K_READKEY: { if (!init) { applicable = false; return; }
       for (const char* k : {"IVAL", "DVAL", "SVAL", "NOPE"}) { int ci = -1, ti = -1; double cd = -1, td = -1; int r1 = splinetable_read_key(h, SPLINETABLE_INT, k, &ci); bool b1 = t->read_key(k, ti); int r2 = splinetable_read_key(h, SPLINETABLE_DOUBLE, k, &cd); bool b2 = t->read_key(k, td);
         oc += vf::fmt("%s:int rc=%d%s dbl rc=%d%s;", k, r1 != 0, r1 == 0 ? vf::fmt(" %d", ci).c_str() : "", r2 != 0, r2 == 0 ? vf::fmt(" %a", cd).c_str() : ""); ot += vf::fmt("%s:int rc=%d%s dbl rc=%d%s;", k, !b1, b1 ? vf::fmt(" %d", ti).c_str() : "", !b2, b2 ? vf::fmt(" %a", td).c_str() : ""); } break; }
-    case K_WRITEKEY_OK: { if (!init) { applicable = false; return; } int v = 7; double d = 2.25; oc = rc(splinetable_write_key(h, SPLINETABLE_INT, "NEWKEY", &v)) + rc(splinetable_write_key(h, SPLINETABLE_DOUBLE, "DVAL", &d)); ot = cpp([&] { t->write_key("NEWKEY", v); }) + cpp([&] { t->write_key("DVAL", d); }); break; }
+    case K_WRITEKEY_OK: { if (!init) { applicable = false; return; } int v = 1234567 /* more digits than a stream prints for a double by default */; double d = 2.25; oc = rc(splinetable_write_key(h, SPLINETABLE_INT, "NEWKEY", &v)) + rc(splinetable_write_key(h, SPLINETABLE_DOUBLE, "DVAL", &d)); ot = cpp([&] { t->write_key("NEWKEY", v); }) + cpp([&] { t->write_key("DVAL", d); }); break; }
     case K_WRITEKEY_BAD: { if (!init) { applicable = false; return; } int v = 7; oc = rc(splinetable_write_key(h, SPLINETABLE_INT, "NAXIS1", &v)); ot = cpp([&] { t->write_key("NAXIS1", v); }); break; }
     case K_ACCESSORS: { if (!pop) { applicable = false; return; } oc = vf::fmt("%zu", std::hash<std::string>()(dig_c(h))); ot = vf::fmt("%zu", std::hash<std::string>()(dig(t.get()))); for (uint32_t i = 0; i < t->get_ndim(); i++) { oc += vf::fmt(" %a", splinetable_period(h, i)); ot += vf::fmt(" %a", t->get_period(i)); } break; }
     case K_EVAL: { if (!pop) { applicable = false; return; } uint32_t nd = t->get_ndim();
